@@ -30,6 +30,7 @@ type ArchEntry struct {
 	Data    []byte
 	Event   int // client call index at which it was stored
 	Created time.Time
+	DBImage *State // snapshot level only: the main database file when the upload began
 }
 
 // FaultStore wraps a ReplicaClient: counts calls, injects the faults the
@@ -37,6 +38,9 @@ type ArchEntry struct {
 // AfterCall after each call (oracle hook).
 type FaultStore struct {
 	Inner  litestream.ReplicaClient
+	// SnapshotSource, if set, returns the source database file's pages when a
+	// snapshot-level upload begins (facts about what the snapshot could read).
+	SnapshotSource func() *State
 	Faults map[int]Fault
 	Calls  int
 	Hit    map[string]int    // fault kind -> times fired
@@ -256,10 +260,17 @@ func (s *FaultStore) WriteLTXFile(ctx context.Context, level int, minTXID, maxTX
 		s.end("write", idx, err)
 		return nil, err
 	}
+	var dbImage *State
+	if level == litestream.SnapshotLevel && s.SnapshotSource != nil {
+		dbImage = s.SnapshotSource()
+	}
 	var buf bytes.Buffer
 	info, err := s.Inner.WriteLTXFile(ctx, level, minTXID, maxTXID, io.TeeReader(r, &buf))
 	if err == nil {
 		s.archive(level, minTXID, maxTXID, buf.Bytes(), idx, info.CreatedAt)
+		if dbImage != nil {
+			s.ArchSeq[len(s.ArchSeq)-1].DBImage = dbImage
+		}
 		if f != nil && f.Kind == "fail_after" {
 			s.fire("write_fail_after")
 			err = fmt.Errorf("write (after effect): %w", ErrInjected)
